@@ -57,7 +57,7 @@ def check(run):
     rng = random.Random(run.seed)
     check_obligations(run)
     quick = run.tier == "quick"
-    dbs = dbgen.corpus(run, "c12", which=("deep", "wr", "ovf", "misc", "ipk"), deep_rows=450 if quick else 3000)
+    dbs = dbgen.corpus(run, "c12", which=("deep", "wr", "ovf", "misc", "ipk"), deep_rows=450 if quick else 1200)
     dumps = hl.schemas(dbs, "c12-schema")
     res, simpl, smodel = ops.full_scans(dbs, "c12-scan")
     # phase 1: fault-free runs on a fresh handle, with the number of page reads each operation performs
@@ -85,7 +85,7 @@ def check(run):
             if not base or any(l.startswith("end err") or l.startswith("err ") for l in base):
                 run.violation("fault-free %s fails on a SQLite-written file: %s" % (cmd[:60], base[-2:]), {"kind": "base-error", "db": db.path, "command": cmd})
                 continue
-            cap = 40 if quick else 400
+            cap = 40 if quick else 150
             ks = list(range(1, nreads + 1)) if nreads <= cap else sorted(set(list(range(1, 16)) + list(range(nreads - 10, nreads + 1)) + [rng.randrange(1, nreads + 1) for _ in range(cap - 25)]))
             for k in ks:
                 for short in ("", " short"):
@@ -116,11 +116,11 @@ def check(run):
     for i, db in enumerate(dbs):
         lines.append(("open%d" % i, "db %s" % db.path))
         npages = len(db.data) // db.page_size
-        pages = sorted(set([2, 3, npages] + [rng.randrange(1, npages + 1) for _ in range(10 if quick else 80)] + sqlfmt.overflow_pages(db.data, db.page_size)[:4]))
+        pages = sorted(set([2, 3, npages] + [rng.randrange(1, npages + 1) for _ in range(10 if quick else 40)] + sqlfmt.overflow_pages(db.data, db.page_size)[:4]))
         cmds = [c for (j, oid), c in oplist.items() if j == i]
         for pgno in pages:
             lines.append(("%d/fail%d" % (i, pgno), "fail %d" % pgno))
-            for n, cmd in enumerate(rng.sample(cmds, min(len(cmds), 6 if quick else 30))):
+            for n, cmd in enumerate(rng.sample(cmds, min(len(cmds), 6 if quick else 15))):
                 cid = "%d/p%d/%d" % (i, pgno, n)
                 lines.append((cid, cmd))
                 meta3[cid] = (db, cmd, pgno)
